@@ -195,3 +195,36 @@ var RuleFloors = map[string]RuleFloor{
 	"REPEATCMP":     {10, []string{"C17"}},
 	"TXSHADOW":      {2, []string{"C07", "C15"}},
 }
+
+// round7Decides: what the clauses of DESIGN.md addendum 7 (and the horizontal-sum clause of §11.1)
+// add to the per-property texts above.
+var round7Decides = map[string]string{
+	"C02": "no arithmetic lies between the value fields of a query and the arguments of the scalar indexes' Search (a strict bound is not rewritten as an inclusive neighbour)",
+	"C03": "ItemCache.GetMany leaves its loop over the requested ids only at the end or with an error, so a missing or deleted id does not hide the ids after it",
+	"C04": "one function does not walk an unordered collection twice and index the second walk's data by the first walk's position",
+	"C05": "the cardinality that feeds the inverse document frequency is that of a term's whole posting set, not of a set derived from it; the loop that counts a document's tokens has no way round the count",
+	"C06": "a path is cut at its first separator again for every remaining level when selected fields are rebuilt",
+	"C08": "outside the node's own methods a node's cached neighbour list is read (directly or through an accessor that lends it to a callback) only after LoadNeighbours on that node",
+	"C09": "a storage transaction begun by hand and put into a wrapper that is only lent to a callback is closed on every exit of the function that began it",
+	"C10": "Flush writes an element to the bucket (itself or in a helper) only behind the not-deleted edge of its mark; an error that is built is also used",
+	"C12": "no key used on the shard registry went through a path normalisation the other users of the registry do not apply",
+	"C13": "an owner computed by the routing function is memoised only under the key that was hashed",
+	"C14": "shard files are found through the collection records, not by a glob over a non-constant directory",
+	"C15": "answers of a fan-out are not matched to requests by the slot of a second walk over the same map",
+	"C16": "an object from a sync.Pool is wiped as a whole before use; bucket bytes are not assigned inside a transaction callback to a variable that outlives the transaction",
+	"C17": "the rpc codec's body readers call the decoder on every successful return; a deadline set for the handshake is cleared before the connection is used",
+	"C18": "every uuid.MustParse in the handlers is applied to a field that the request type's Validate parses",
+	"C19": "no codec sizes its output by the capacity of its argument",
+	"C20": "the final block of both AVX kernels, evaluated over a lane model (VADDPS, VADDSS, VHADDPS, VEXTRACTF128 and the register shuffles), adds every lane of every packed accumulator and lane 0 of every scalar accumulator into the returned float exactly once",
+}
+
+func init() {
+	for i := range All {
+		if t, ok := round7Decides[All[i].ID]; ok {
+			All[i].Decides += "; " + t
+		}
+	}
+	Technique["C20"] += "; lane-level symbolic evaluation (multisets of accumulator lanes) of the horizontal reduction"
+	Technique["C03"] += "; loop-exit analysis of the batched cache read"
+	Technique["C10"] += "; mark-edge dominance of bucket writes in Flush, followed into helpers"
+}
